@@ -1,6 +1,7 @@
 //! qvh — verification harness for /verif (see /verif/DESIGN.md).
 mod backend;
 mod build;
+mod conc;
 mod hdr;
 mod pure;
 mod seq;
@@ -469,6 +470,153 @@ fn main() {
             write_lines(&format!("{}/backend.in", out), &req_lines);
             write_lines(&format!("{}/backend.impl", out), &res_lines);
             println!("backend cases={} guest={}", n, ng);
+        }
+        "conc" => {
+            // C06 / C07 / C18: concurrent operations under the deterministic scheduler
+            let kinds: Vec<String> = m
+                .get("img")
+                .map(|s| s.split(',').map(|x| x.to_string()).collect())
+                .unwrap_or_else(|| vec!["format".to_string()]);
+            let scheds: usize = m.get("scheds").and_then(|s| s.parse().ok()).unwrap_or(3);
+            let skip: Vec<usize> = m.get("skip").map(|s| s.split(',').filter_map(|x| x.parse().ok()).collect()).unwrap_or_default();
+            let progress = std::sync::Arc::new(std::sync::atomic::AtomicUsize::new(usize::MAX));
+            {
+                let progress = progress.clone();
+                std::thread::spawn(move || {
+                    let mut last = usize::MAX;
+                    let mut since = std::time::Instant::now();
+                    loop {
+                        std::thread::sleep(std::time::Duration::from_millis(200));
+                        let cur = progress.load(std::sync::atomic::Ordering::Relaxed);
+                        if cur != last {
+                            last = cur;
+                            since = std::time::Instant::now();
+                        } else if cur != usize::MAX && since.elapsed().as_secs() >= 20 {
+                            println!("hang case={}", cur);
+                            std::process::exit(3);
+                        }
+                    }
+                });
+            }
+            let mut f_out = std::fs::File::create(format!("{}/conc.impl", out)).unwrap();
+            let mut nrun = 0;
+            for id in 0..n {
+                let kind = &kinds[id % kinds.len()];
+                let (case, batches) = conc::gen_conc_case(seed, id, kind);
+                let images = match std::panic::catch_unwind(|| seq::case_images(&case)) {
+                    Ok(Ok(i)) => i,
+                    _ => continue,
+                };
+                if case.img != "format" {
+                    write_lines(&format!("{}/case{}.flat", out, case.id), &images.flat);
+                }
+                for sc in 0..scheds {
+                    let run_id = id * 100 + sc;
+                    if skip.contains(&run_id) {
+                        continue;
+                    }
+                    progress.store(run_id, std::sync::atomic::Ordering::Relaxed);
+                    let mut lines: Vec<String> = Vec::new();
+                    lines.push(format!("{} run={} sched={}", case.header(), run_id, sc));
+                    writeln!(f_out, "{}", lines[0]).unwrap();
+                    f_out.flush().unwrap();
+                    let files: Vec<sim::SimFile> = images
+                        .files
+                        .iter()
+                        .enumerate()
+                        .map(|(i, f)| sim::SimFile::new(if i == 0 { "top" } else { "back" }, f.clone()))
+                        .collect();
+                    let params = case.params();
+                    let dev = match std::panic::catch_unwind(std::panic::AssertUnwindSafe(|| {
+                        futures::executor::block_on(util::open_dev(&files, &params))
+                    })) {
+                        Ok(Ok(d)) => d,
+                        _ => {
+                            writeln!(f_out, "open err\nend").unwrap();
+                            continue;
+                        }
+                    };
+                    let mut rng = util::Rng::derive(seed, 60 + sc as u64, id as u64);
+                    let mut step = 0usize;
+                    let mut broken = false;
+                    for (b, ops) in batches.iter().enumerate() {
+                        let r = conc::run_batch(&dev, &files, ops, &mut rng, sc % 2 == 1, step);
+                        step = r.steps + 1;
+                        lines.push(format!("batch {}", b));
+                        for (i, t) in r.tasks.iter().enumerate() {
+                            let (res, buf) = match &t.out {
+                                Some(o) => (o.res.clone(), o.buf.clone()),
+                                None => ("unfinished".to_string(), None),
+                            };
+                            lines.push(format!(
+                                "task {} {} inv={} resp={} after={} res={}{}",
+                                i,
+                                t.op.text(),
+                                t.inv,
+                                t.resp,
+                                t.after.map(|a| a.to_string()).unwrap_or("-".into()),
+                                res.replace(' ', "_"),
+                                buf.map(|b| format!(" buf={}", b.replace(' ', ","))).unwrap_or_default()
+                            ));
+                        }
+                        lines.push(format!(
+                            "sched steps={} deadlock={} livelock={} panic={}",
+                            r.steps, r.deadlock as u8, r.livelock as u8, r.panicked as u8
+                        ));
+                        if r.deadlock || r.livelock || r.panicked {
+                            broken = true;
+                            break;
+                        }
+                    }
+                    if broken {
+                        std::mem::forget(dev);
+                    } else {
+                        // quiescent point
+                        let nf = dev.need_flush_meta();
+                        lines.push(format!("nf {}", nf as u8));
+                        let sweep_of = |fs: &Vec<sim::SimFile>| -> String {
+                            let copies: Vec<sim::SimFile> = fs.iter().map(|f| sim::SimFile::new("copy", f.snapshot())).collect();
+                            let mut p = case.params();
+                            p.set_read_only(true);
+                            match std::panic::catch_unwind(std::panic::AssertUnwindSafe(|| {
+                                futures::executor::block_on(async {
+                                    let d = util::open_dev(&copies, &p).await?;
+                                    seq::sweep(&d, case.size, 1 << case.bsb).await
+                                })
+                            })) {
+                                Ok(Ok(s)) => s,
+                                Ok(Err(_)) => "err".into(),
+                                Err(_) => "panic".into(),
+                            }
+                        };
+                        if !nf {
+                            lines.push(format!("quiet {}", sweep_of(&files).replace(' ', ",")));
+                        }
+                        let live = std::panic::catch_unwind(std::panic::AssertUnwindSafe(|| {
+                            futures::executor::block_on(seq::sweep(&dev, case.size, 1 << case.bsb))
+                        }));
+                        lines.push(format!("live {}", match live { Ok(Ok(s)) => s.replace(' ', ","), Ok(Err(_)) => "err".into(), Err(_) => "panic".into() }));
+                        let fl = std::panic::catch_unwind(std::panic::AssertUnwindSafe(|| futures::executor::block_on(dev.flush_meta())));
+                        match fl {
+                            Ok(Ok(())) => {
+                                lines.push("flush ok".into());
+                                lines.push(format!("reopen {}", sweep_of(&files).replace(' ', ",")));
+                            }
+                            Ok(Err(_)) => lines.push("flush err".into()),
+                            Err(_) => {
+                                lines.push("flush panic".into());
+                            }
+                        }
+                    }
+                    lines.push("end".into());
+                    for l in &lines[1..] {
+                        writeln!(f_out, "{}", l).unwrap();
+                    }
+                    f_out.flush().unwrap();
+                    nrun += 1;
+                }
+            }
+            println!("conc runs={}", nrun);
         }
         "respond" => {
             // answer request lines from a file (replay)
